@@ -37,7 +37,7 @@ def harnesses(tier):
     return h
 
 
-BUDGET = {"quick": 1200, "thorough": 60000}
+BUDGET = {"quick": 1200, "thorough": 30000}
 
 
 def leg(part, tier, shard, nshards):
